@@ -236,8 +236,8 @@ def families(tier):
         F.append(("r2-lit-full", 2, [FULL, FULL], "full", True))
         F.append(("r2-tens-p0", 2, [TENS, RED], "full", True))
         F.append(("r2-tens-p1", 2, [RED, TENS], "full", True))
-        F.append(("r2-tensF-p0", 2, [TENS, FULL], "small", True))
-        F.append(("r2-tensF-p1", 2, [FULL, TENS], "small", True))
+        F.append(("r2-tensF-p0", 2, [TENS4, FULL], "small", True))
+        F.append(("r2-tensF-p1", 2, [FULL, TENS4], "small", True))
         F.append(("r2-tens2", 2, [TENS, TENS], "small", True))
         F.append(("r3-lit-red", 3, [RED41, RED41, RED41], "full", True))
         F.append(("r3-short1-lit", 3, [FULL], "full", True))
@@ -342,7 +342,7 @@ def _install_session_memo():
         key = (path_or_bytes, tuple(providers or ()))
         s = cache.get(key)
         if s is None:
-            if len(cache) >= 6000:
+            if len(cache) >= 2000:     # ~0.15 MB per session
                 cache.clear()
             s = cache[key] = real(path_or_bytes, one_thread(), providers=providers)
         return s
@@ -360,7 +360,7 @@ _VERDICTS = {}       # (expr tuple, shape, vals key, memo) -> (want, g, e)
 
 
 class Prog:
-    __slots__ = ("src", "f", "session", "g_refusal", "path", "params")
+    __slots__ = ("src", "f", "session", "g_refusal", "path", "params", "modname")
 
 
 def source_of(expr, rank):
@@ -387,18 +387,17 @@ def build(expr, rank):
     pr = _PROGS.get(key)
     if pr is not None:
         return pr
-    if len(_PROGS) >= 3000:
-        for k in list(_PROGS)[:1500]:
+    if len(_PROGS) >= 800:
+        for k in list(_PROGS)[:400]:
             old = _PROGS.pop(k)
-            if old.f is not None:
-                sys.modules.pop(getattr(old.f, "__module__", ""), None)
+            sys.modules.pop(old.modname, None)
     pr = Prog()
     pr.src, pr.params = source_of(expr, rank)
     pr.f = pr.session = pr.g_refusal = None
     pr.path = "-"
     _SEQ[0] += 1
     fname = f"<c11_{_SEQ[0]}>"
-    modname = f"_c11_gen_{_SEQ[0]}"
+    modname = pr.modname = f"_c11_gen_{_SEQ[0]}"
     linecache.cache[fname] = (len(pr.src), None, pr.src.splitlines(True), fname)
     mod = types.ModuleType(modname)
     mod.__dict__.update(_env())
@@ -826,9 +825,8 @@ def execute(item):
     inc("extra_evaluations", n_triples - 1)
     inc("expressions", len(item["exprs"]))
     inc("triples:" + item["fam"], n_triples)
-    inc("cpu_ms", int((time.process_time() - t_cpu) * 1000))     # informational only (not compared anywhere)
     first = item["exprs"][0]
-    return {"status": "viol" if viols else "ok",
+    return {"status": "viol" if viols else "ok", "cpu_ms": int((time.process_time() - t_cpu) * 1000),
             "outcome": item["fam"] + ":" + "+".join(sorted(outcomes)),
             "nkey": nkeys, "nontrivial": bool(nkeys), "counts": counts, "viols": list(viols.values()),
             "show": source_of(first, rank)[0] + f"# ... {len(item['exprs'])} expressions in this item, "
@@ -843,7 +841,7 @@ def summarize(items, results, tier):
                 paths[k[5:]] = paths.get(k[5:], 0) + v
             elif k.startswith(("graph-err:", "eager-err:", "graph-refused-static:")):
                 refusals[k] = refusals.get(k, 0) + v
-    cpu_ms = sum((r.get("counts") or {}).get("cpu_ms", 0) for r in results)
+    cpu_ms = sum(r.get("cpu_ms", 0) for r in results)        # timing, like wall_s: not part of the counts
     return {"worker_cpu_s": round(cpu_ms / 1000.0, 1),
             "graph_op_paths": dict(sorted(paths.items(), key=lambda kv: -kv[1])),
             "distinct_graph_op_paths": len(paths),
